@@ -12,7 +12,11 @@ def plan(tier, seed):
             ch("C09", F, "h_sort_part_names_shared_ids", t, ["api.ParquetFile._sort_part_names", "api.part_ids"]),
             ch("C09", F, "h_overwrite", t, ["writer.overwrite", "api.partitions", "api.ParquetFile.remove_row_groups"]),
             ch("C09", G, "h_multi_append", t, ["api.ParquetFile.write_row_groups", "writer.write_multi"])]
-    for ids in ["1,2"] if tier == "quick" else ["1,2", "0,2,5", "9,10"]:
+    # the append step numbers its new part files above every existing id (ids of several digits, inside partition
+    # directories): same harnesses as C07
+    jobs.append(ch("C09", G, "h_find_max_part", t, ["writer.find_max_part", "api.part_ids"]))
+    jobs.append(ch("C09", G, "h_find_max_part_dirs", t, ["writer.find_max_part", "api.part_ids"]))
+    for ids in ["1,2", "9,10"] if tier == "quick" else ["1,2", "0,2,5", "9,10"]:
         j = ch("C09", G, "h_multi_append", t, ["writer.write_multi", "writer.find_max_part"], shape=dict(old_ids=ids),
                env=dict(VERIF_OLD_IDS=ids))
         j["name"] += "[ids=%s]" % ids
